@@ -34,7 +34,8 @@ CLAIMED = {
              "self link once as internal), no duplicates; both link enumerations are the distinct submitted pairs (transposes); the link count is "
              "twice the submissions in stubs. On the link store translated from the source on every run (GenLinks.v): add_links appends exactly the "
              "model's stubs and rewrites the page's block in place; the weighted traversal returns the model's weighted target list on the "
-             "store of every reachable state.", T_REF, "DESIGN.md section 6 C03"),
+             "store of every reachable state; the translated Traph.get_page_links (GenTraphL.v) answers exactly the specification's weighted pairs "
+             "for every history and every switch setting.", T_REF, "DESIGN.md section 6 C03"),
     "C04": c(REF + "Props/C04.v: retrieve_webentity / retrieve_prefix equal longest-stem-prefix resolution over the specification's net prefix map for "
              "every well-formed LRU (present or not), refusal iff none; prefix enumeration = that map; attaching an attached prefix is refused "
              "(create and add_prefix), exactly then. On the API requests translated from the source on every run (GenTraph.v over GenTrieW.v / GenTrie.v): "
